@@ -1,22 +1,34 @@
 """C03 helper - locate message.py's private tables THROUGH PUBLIC BEHAVIOUR (ROBUSTNESS_BRIEF addendum "private names").
 
 Used by tools/tables/c03_message.py (and the mentions of the same tables in c04_proto / c05_wire / c20_fds) and by
-harness/c03.py.  Every function takes the imported modules of the tree under test; the private name is the fast path
-and, when it exists, is CROSS-CHECKED against the probe (a disagreement is a ProbeError: the table would be wrong);
-when it does not exist the probe alone answers and an advisory sentence is appended to `advisories`.
+harness/c03.py.  Every function takes the imported modules of the tree under test.  What is and what is not cross-checked:
 
-  header_signature   the signature the fixed header + field array is marshalled with: a module-level str under which a
-                     message's own bytes decode to its (byte order, type, flags, version, body length, serial, fields) and
-                     re-encode to the same bytes
-  class_by_type      message type code -> class: parseMessage of a minimal message with each type byte 0..255
-  field_by_code      header field code -> attribute name: parseMessage of a message carrying one field of each code
-                     0..255 and the attribute that appears
-  header_attrs       a class's (attribute, code, required) rows: `_headerAttrs` (any sequence of 3-sequences), else the
-                     header array of a message constructed with every keyword
-  serial_counter     where the process-wide serial counter lives: the integer class attribute that a construction advances
+  header_signature   the signature the fixed header + field array is marshalled with.  `_headerFormat` (fast path) must
+                     decode AND re-encode the bytes of a message the module built; without the name: the one module-level
+                     str that does, else the specification's `yyyyuua(yv)` if it does.  CROSS-CHECKED in every branch.
+  class_by_type      message type code -> class: parseMessage of a VALID carrier message of each type byte 0..255 (the
+                     required header fields of the type present; unknown types: none, else all of codes 1..5).
+                     `_mtype`, when it exists, is CROSS-CHECKED: a type parsed into a different class, or accepted although
+                     `_mtype` lacks it, is a ProbeError; a type of `_mtype` the probe could not get parsed (parseMessage
+                     refused the carrier) is taken from `_mtype` with an advisory ("could not be cross-checked").
+  field_by_code      header field code -> attribute name: parseMessage of a valid method return carrying one more field
+                     of that code with the specification's type for the code and a valid, recognisable value (codes 1..9;
+                     other codes: a STRING), and the attribute that takes the value (attributes read with getattr over the
+                     nine documented names, `vars(m)` and `dir(m)` - not `vars` alone).  `_hcode` CROSS-CHECKED the same way.
+  header_attrs       a class's (attribute, code, required) rows.  `_headerAttrs` (any sequence of 3-sequences) is read AS IT
+                     IS - NOT cross-checked here (backstop: the `build` stream compares every header byte with the model
+                     built from it).  Without the name: the header array of an object with all nine attributes set,
+                     re-marshalled through the located entry point; the `required` column is then not visible and is
+                     written as False (the model does not use it: `Tables.OK.required` looks at attribute membership only).
+  serial_counter     where the process-wide serial counter lives: `_nextSerial` if it is an int, else the integer class
+                     attribute that a construction advances (behavioural).
   forward_call       the bus's re-marshal entry point: the method of DBusMessage taking (newSerial=True, ..., <body bytes>=None)
+                     (by signature shape; exercised by the `remarshal-parsed` stream).
+No probe lets an exception of the code under test escape: every failure is a ProbeError (the translator turns it into a
+TranslatorError that names the table) or, when a private name can answer instead, an advisory.
 Public names used: the four message classes and their constructor keywords, parseMessage, rawMessage, serial,
-`_messageType` (pinned by tests/test_message.py), marshal.marshal / marshal.unmarshal.
+`_messageType` (pinned by tests/test_message.py; cross-checked against byte 1 of a constructed message by the translator),
+marshal.marshal / marshal.unmarshal and the wrapper classes ObjectPath / Signature / UInt32.
 """
 import inspect
 
@@ -118,56 +130,148 @@ def header_signature(message, marshal, advisories=None):
     raise ProbeError('cannot determine the header signature: candidates %r' % (good,))
 
 
-def _craft(marshal, hsig, mtype, fields, flags=0, serial=1):
-    hdr = b''.join(marshal.marshal(hsig, [ord('l'), mtype, flags, 1, 0, serial, fields], 0, True)[1])
-    return hdr + b'\0' * ((-len(hdr)) % 8)
+def _craft(marshal, hsig, mtype, fields, flags=0, serial=1, body=b''):
+    hdr = b''.join(marshal.marshal(hsig, [ord('l'), mtype, flags, 1, len(body), serial, fields], 0, True)[1])
+    return hdr + b'\0' * ((-len(hdr)) % 8) + body
+
+
+def _spec_fields(marshal):
+    """code -> a VALID value of the specification's type for that header field, recognisable when it shows up as an
+    attribute (the specification's table: PATH 'o'; INTERFACE, MEMBER, ERROR_NAME, DESTINATION, SENDER 's';
+    REPLY_SERIAL, UNIX_FDS 'u'; SIGNATURE 'g')."""
+    return {1: marshal.ObjectPath('/probe/p'), 2: 'probe.iface', 3: 'probeMember', 4: 'probe.Err',
+            5: marshal.UInt32(424242), 6: ':1.4277', 7: ':1.4278', 8: marshal.Signature('y'), 9: marshal.UInt32(0)}
+
+
+REQUIRED = {1: [1, 3], 2: [5], 3: [4, 5], 4: [1, 2, 3]}          # the specification's required fields per message type
+
+
+def _carrier_fields(marshal, mtype, universal=False):
+    sf = _spec_fields(marshal)
+    codes = [1, 2, 3, 4, 5] if universal else REQUIRED.get(mtype, [])
+    return [[c, sf[c]] for c in codes]
+
+
+def _attrs_of(m):
+    """{name: value} of a message object: the nine documented attributes through getattr, plus whatever `vars` / `dir` show."""
+    names = list(ATTR_NAMES)
+    try:
+        names += [n for n in vars(m) if n not in names]
+    except TypeError:                      # __slots__
+        pass
+    try:
+        names += [n for n in dir(m) if not n.startswith('__') and n not in names]
+    except Exception:
+        pass
+    out = {}
+    for n in names:
+        try:
+            v = getattr(m, n)
+        except Exception:
+            continue
+        if callable(v):
+            continue
+        out[n] = v
+    return out
+
+
+def _parse(message, raw, fds=None):
+    return message.parseMessage(raw, [] if fds is None else fds)
 
 
 def class_by_type(message, marshal, hsig, advisories=None):
-    """{type code: class} for every type byte parseMessage accepts."""
-    out = {}
+    """{type code: class} for every type byte parseMessage accepts (valid carriers, see the module docstring)."""
+    out, refused = {}, {}
     for t in range(256):
-        try:
-            m = message.parseMessage(_craft(marshal, hsig, t, []), [])
-        except Exception:
-            continue
-        out[t] = type(m)
+        m = None
+        for universal in (False, True):
+            try:
+                m = _parse(message, _craft(marshal, hsig, t, _carrier_fields(marshal, t, universal)))
+                break
+            except Exception as e:
+                refused[t] = e
+        if m is not None:
+            out[t] = type(m)
+            refused.pop(t, None)
     fast = getattr(message, '_mtype', None)
     if isinstance(fast, dict):
-        if {k: v for k, v in fast.items()} != out:
-            raise ProbeError('message._mtype %r disagrees with what parseMessage returns per type byte %r'
-                             % (sorted(fast), sorted(out)))
-    elif advisories is not None:
-        advisories.append('message._mtype is gone: class per message type found by parsing a minimal message of each type byte')
+        fast = dict(fast)
+        wrong = {t: (fast.get(t), k) for t, k in out.items() if fast.get(t) is not k}
+        if wrong:
+            raise ProbeError('message._mtype disagrees with the class parseMessage returns per type byte: %r' % (wrong,))
+        undecided = sorted(t for t in fast if t not in out)
+        if undecided and advisories is not None:
+            advisories.append('message._mtype entries %r could not be cross-checked by probing (parseMessage refused the valid '
+                              'carrier message: %r); taken from _mtype' % (undecided, refused.get(undecided[0])))
+        return fast
+    if not out:
+        raise ProbeError('message._mtype is gone and parseMessage accepted no carrier message of any type (%r)'
+                         % (next(iter(refused.values()), None),))
+    if advisories is not None:
+        advisories.append('message._mtype is gone: class per message type found by parsing a valid minimal message of each type byte')
     return out
 
 
 def field_by_code(message, marshal, hsig, advisories=None):
     """{field code: attribute name} for every code whose field parseMessage stores on the message object."""
-    base = vars(message.parseMessage(_craft(marshal, hsig, 2, []), []))
-    out = {}
+    fast = getattr(message, '_hcode', None)
+    fast = dict(fast) if isinstance(fast, dict) else None
+    sf = _spec_fields(marshal)
+    out, undecided = {}, {}
+    try:
+        base = _attrs_of(_parse(message, _craft(marshal, hsig, 2, [[5, marshal.UInt32(7)]])))
+    except Exception as e:
+        if fast is not None:
+            if advisories is not None:
+                advisories.append('message._hcode could not be cross-checked by probing (parseMessage refused a plain method '
+                                  'return: %r); taken from _hcode' % (e,))
+            return fast
+        raise ProbeError('message._hcode is gone and parseMessage refuses a plain method return: %r' % (e,))
     for code in range(256):
+        value = sf.get(code, 'probe.unknown%d' % code)
+        fields = [[code, value]] if code == 5 else [[5, marshal.UInt32(7)], [code, value]]
+        body = b'\x07' if code == 8 else b''
         try:
-            m = message.parseMessage(_craft(marshal, hsig, 2, [[code, '']]), [])
-        except Exception:
+            m = _parse(message, _craft(marshal, hsig, 2, fields, body=body))
+        except Exception as e:
+            undecided[code] = e
             continue
-        new = [n for n, v in vars(m).items() if v == '' and isinstance(v, str) and base.get(n, None) != '']
-        if len(new) == 1:
+        got = _attrs_of(m)
+        new = [n for n, v in got.items() if _same(v, value) and not _same(base.get(n, None), value)]
+        public = [n for n in new if n in ATTR_NAMES]
+        if len(public) == 1:
+            out[code] = public[0]
+        elif len(new) == 1:
             out[code] = new[0]
         elif len(new) > 1:
             raise ProbeError('header field %d sets several attributes: %r' % (code, new))
-    fast = getattr(message, '_hcode', None)
-    if isinstance(fast, dict):
-        if dict(fast) != out:
+    if fast is not None:
+        decided = {c: a for c, a in fast.items() if c not in undecided}
+        seen = {c: a for c, a in out.items()}
+        if decided != seen:
             raise ProbeError('message._hcode %r disagrees with the attributes parseMessage sets %r' % (fast, out))
-        return dict(fast)             # keeps the dict order of the source
+        und = sorted(c for c in fast if c in undecided)
+        if und and advisories is not None:
+            advisories.append('message._hcode entries %r could not be cross-checked by probing (parseMessage refused the '
+                              'carrier: %r); taken from _hcode' % (und, undecided[und[0]]))
+        return fast                       # keeps the dict order of the source
+    if not out:
+        raise ProbeError('message._hcode is gone and no header field shows up as an attribute of the parsed message')
     if advisories is not None:
-        advisories.append('message._hcode is gone: attribute per header field code found by parsing a message carrying each code')
+        advisories.append('message._hcode is gone: attribute per header field code found by parsing a valid message carrying each code')
     return out
 
 
+def _same(a, b):
+    try:
+        return type(a) is not bool and a is not None and a == b
+    except Exception:
+        return False
+
+
 def header_attrs(message, marshal, hsig, clsname, fields=None, advisories=None):
-    """[(attr, code, required)] of a class, in table order."""
+    """[(attr, code, required)] of a class, in table order (`_headerAttrs` as it is - not cross-checked here -, else probed;
+    `required` is False on the probe path: not visible from outside)."""
     k = getattr(message, clsname)
     rows = getattr(k, '_headerAttrs', None)
     if isinstance(rows, (list, tuple)) and all(isinstance(r, (list, tuple)) and len(r) == 3 for r in rows):
@@ -177,7 +281,10 @@ def header_attrs(message, marshal, hsig, clsname, fields=None, advisories=None):
     kw = {'path': '/a', 'member': 'm', 'interface': 'a.b', 'destination': ':1.1', 'signature': 'y', 'body': [1],
           'error_name': 'a.E', 'reply_serial': 1, 'sender': ':1.2'}
     params = [p for p in inspect.signature(k.__init__).parameters if p in kw]
-    m = _restoring_counter(message, lambda: k(**{p: kw[p] for p in params}))
+    try:
+        m = _restoring_counter(message, lambda: k(**{p: kw[p] for p in params}))
+    except Exception as e:
+        raise ProbeError('%s._headerAttrs is gone and the constructor refuses the probe arguments: %r' % (clsname, e))
     how = 'a message built with every constructor keyword (attributes no keyword sets are not visible)'
     fwd = forward_call(message)
     if fwd:
@@ -191,7 +298,10 @@ def header_attrs(message, marshal, hsig, clsname, fields=None, advisories=None):
             how = 'an object with all nine attributes set, re-marshalled through %s()' % fwd[0]
         except Exception:
             pass
-    n, vals = marshal.unmarshal(hsig, m.rawMessage, 0, True, [])
+    try:
+        n, vals = marshal.unmarshal(hsig, m.rawMessage, 0, True, [])
+    except Exception as e:
+        raise ProbeError('%s._headerAttrs is gone and the header of a constructed message does not decode: %r' % (clsname, e))
     out = [(fields[c], c, False) for c, _ in vals[6] if c in fields]
     if advisories is not None:
         advisories.append('%s._headerAttrs is gone: rows (attribute, code; the `required` column is not visible) read from '
